@@ -1475,7 +1475,7 @@ def standin_lsp_histories(tier, seed):
     rnd = random.Random(seed + 5)
     names = ['a', 'm', 'zz', 'b0', 'q'] if tier == 'thorough' else ['a', rnd.choice(['m', 'zz', 'b0', 'q'])]
     bound = ('%d workspaces x 2 history families: (1) a document that imports ITSELF, edited in 2..3 steps so that a binding changes its type between versions; (2) files on disk forming a '
-             'diamond (A imports B and C, C imports B) under %d namings / directory layouts, A opened before and after an unedited open + close of B or C; after every step '
+             'diamond (A imports B and C, C imports B) under %d namings x 3 directory layouts x 2 uses of c.b.v (a valid one, one with a latent type error), A opened after an unedited open + close of B or C; after every step '
              'the diagnostics published last for the document == a fresh server\'s on the same text and files' % (len(names), len(names)))
     base = mktemp()
     n = 0
@@ -1510,37 +1510,39 @@ def standin_lsp_histories(tier, seed):
                     return viol(name, bound, n, 'server died / did not answer in a self-import history: %r' % (e,), source=dict(file=f, versions=hist), expected='answers', observed=repr(e), how='see detail')
                 finally:
                     srv.kill()
-            # (2) diamond on disk; the names decide the directory listing order
-            root = os.path.join(base, 'dia%d' % wi)
-            sub = ['', 'lib', nm][wi % 3]
-            os.makedirs(os.path.join(root, sub) if sub else root)
-            fa, fb, fc = '%s_top.ucg' % nm, os.path.join(sub, '%s_base.ucg' % nm), os.path.join(sub, 'c_%s.ucg' % nm)
-            texts = {fb: 'let v = "s";\n',
-                     fc: 'let b = import "%s";\nlet w = b.v + "!";\n' % os.path.basename(fb),
-                     fa: 'let b = import "%s";\nlet c = import "%s";\nlet r = c.b.v + "?";\nlet t = b.v + c.w;\n' % (fb, fc)}
-            for rel, t in texts.items():
-                open(os.path.join(root, rel), 'w').write(t)
-            ua = 'file://' + os.path.join(root, fa)
-            want = fresh_diags(root, ua, texts[fa])
-            for other in (fc, fb):
-                srv = Server(root)
-                try:
-                    srv.initialize()
-                    uo = 'file://' + os.path.join(root, other)
-                    srv.notify(*open_msg(uo, texts[other]))
-                    srv.notify(*close_msg(uo))
-                    srv.notify(*open_msg(ua, texts[fa]))
-                    srv.call(*sym_req('zz'))
-                    got = srv.diags.get(ua)
-                    n += 1
-                    if isinstance(want, tuple) or not same_diags(got or [], want or []):
-                        return viol(name, bound, n, 'diamond %s <- {%s, %s}: after an unedited open + close of %s the server publishes %s for %s, a fresh server publishes %s' % (fa, fb, fc, other, show_diags(got or []), fa, want if isinstance(want, tuple) else show_diags(want or [])),
-                                    source=dict(files=texts, opened_and_closed=other, then_opened=fa), expected='the diagnostics of a fresh server', observed=show_diags(got or []),
-                                    how='write the files, `ucg lsp` in that directory: initialize, didOpen + didClose of the named file with its disk text, didOpen of the top file; compare with a fresh server that only opens the top file')
-                except (Dead, NoAnswer) as e:
-                    return viol(name, bound, n, 'server died / did not answer in a diamond history: %r' % (e,), source=dict(files=texts), expected='answers', observed=repr(e), how='see detail')
-                finally:
-                    srv.kill()
+            # (2) diamond on disk; the names decide the directory listing order (sub directory before / after the top file, or none)
+            for li, (sub, top) in enumerate([('', '%s_top.ucg' % nm), ('a_%s' % nm, 'm_%s.ucg' % nm), ('z_%s' % nm, 'm_%s.ucg' % nm)]):
+                for vi, use in enumerate(['c.b.v + "?"', 'c.b.v + 1']):         # a valid use, and one whose verdict depends on how much of c's shape is known
+                    root = os.path.join(base, 'dia%d_%d_%d' % (wi, li, vi))
+                    os.makedirs(os.path.join(root, sub) if sub else root)
+                    fa, fb, fc = top, os.path.join(sub, 'b.ucg'), os.path.join(sub, 'c.ucg')
+                    texts = {fb: 'let v = "s";\n',
+                             fc: 'let b = import "b.ucg";\n',
+                             fa: 'let b = import "%s";\nlet c = import "%s";\nlet y = %s;\n' % (fb, fc, use)}
+                    order = [fa, fb, fc] if (wi + li) % 2 == 0 else [fb, fc, fa]
+                    for rel in order:
+                        open(os.path.join(root, rel), 'w').write(texts[rel])
+                    ua = 'file://' + os.path.join(root, fa)
+                    want = fresh_diags(root, ua, texts[fa])
+                    for other in (fc, fb):
+                        srv = Server(root)
+                        try:
+                            srv.initialize()
+                            uo = 'file://' + os.path.join(root, other)
+                            srv.notify(*open_msg(uo, texts[other]))
+                            srv.notify(*close_msg(uo))
+                            srv.notify(*open_msg(ua, texts[fa]))
+                            srv.call(*sym_req('zz'))
+                            got = srv.diags.get(ua)
+                            n += 1
+                            if isinstance(want, tuple) or not same_diags(got or [], want or []):
+                                return viol(name, bound, n, 'diamond %s <- {%s, %s}: after an unedited open + close of %s the server publishes %s for %s, a fresh server publishes %s' % (fa, fb, fc, other, show_diags(got or []), fa, want if isinstance(want, tuple) else show_diags(want or [])),
+                                            source=dict(files=texts, opened_and_closed=other, then_opened=fa), expected='the diagnostics of a fresh server', observed=show_diags(got or []),
+                                            how='write the files, `ucg lsp` in that directory: initialize, didOpen + didClose of the named file with its disk text, didOpen of the top file; compare with a fresh server that only opens the top file')
+                        except (Dead, NoAnswer) as e:
+                            return viol(name, bound, n, 'server died / did not answer in a diamond history: %r' % (e,), source=dict(files=texts), expected='answers', observed=repr(e), how='see detail')
+                        finally:
+                            srv.kill()
         return dict(name=name, bound=bound, cases=n, status='ok')
     finally:
         rmtemp(base)
